@@ -156,6 +156,12 @@ class Check(PropertyCheck):
         items = []
         for _ in range(n):
             body = gen.random_diagram(self.rng, 16, 5).split("# Legend:")[0].replace("{", "(").replace("}", ")")
+            if self.rng.chance(1, 5):
+                # an unpaired quote somewhere in the drawing (an inch mark, a ditto mark): quoted strings are per row, so
+                # it cannot hide the legend
+                rows = body.split("\n")
+                rows.insert(self.rng.below(len(rows) + 1), self.rng.choice(['5" pipe', 'a "', '"', '3.5" x 2', ' " ']))
+                body = "\n".join(rows)
             leg, entries = gen_legend(self.rng)
             items.append((body, leg, entries))
         lines = []
